@@ -7,7 +7,8 @@
     and what every answer contains (any list of frames: valid, shifted, duplicated,
     reordered, forged, wrong-chain, undecodable, panicking, partial, overlong, empty),
     over every clock reading per answer, every type-level verifier [tv], chunk size
-    [per >= 1] and peer set. uint64 arithmetic is explicit ([two64], [wrap64]). *)
+    [per >= 1] and peer set. uint64 arithmetic is explicit ([two64], [wrap64]);
+    [h_height from < two64] and [to < two64] say that these are uint64 values. *)
 From GH Require Import Base.Prelude Model.Verify Model.Session Proofs.SessionP.
 
 (** If the call returns headers they are exactly the heights from+1 .. to-1 in ascending
@@ -16,7 +17,7 @@ From GH Require Import Base.Prelude Model.Verify Model.Session Proofs.SessionP.
 Theorem C05_result_shape :
   forall (drift : Z) (tv : hdr -> hdr -> tvres) (maxcap per : N) (from : hdr) (to : N)
          (peers : list N) (evs : list event) (res : list hdr),
-  h_nil from = false -> h_height from + 1 < two64 -> to < two64 -> 1 <= per ->
+  h_nil from = false -> h_height from < two64 -> to < two64 -> 1 <= per ->
   GetRangeByHeight drift tv maxcap per from to peers evs = Some (ROk res) ->
   h_height from + 1 < to /\
   res <> [] /\
@@ -24,94 +25,59 @@ Theorem C05_result_shape :
   (forall h, In h res -> h_height h < to /\ h_ok h = true /\ In h (evs_hdrs evs)).
 Proof. exact result_heights. Qed.
 
-(** "... and Verify starting from from". What the code guarantees: every returned header
-    passed [Verify] - at the clock reading of the answer that carried it - against [from]
-    itself or against the header returned just before it (the first one always against
-    [from]): each answer chunk is checked by VerifyRange(from, chunk), so the first header
-    of a chunk is verified (non-adjacently) against [from].
-    Full statement (one Verify chain from -> res[0] -> res[1] -> ...):
-      [chain (verified_during drift tv evs) from res]
-    is false of the code, see [C05_result_verified_refuted]: the first header of a chunk is
-    never checked against the last header of the previous chunk (known finding 3). *)
-Theorem C05_result_verified_partial :
+(** "... and Verify starting from from": the returned slice is ONE Verify chain. Every
+    returned header passed [Verify] (at the clock reading of one of the answers) against the
+    header returned just before it, the first one against [from]:
+    inside an answer chunk by VerifyRange(from, chunk), across chunks by
+    verifyChunkBoundaries. *)
+Theorem C05_result_verified :
   forall (drift : Z) (tv : hdr -> hdr -> tvres) (maxcap per : N) (from : hdr) (to : N)
          (peers : list N) (evs : list event) (res : list hdr),
-  h_nil from = false -> h_height from + 1 < two64 -> to < two64 -> 1 <= per ->
+  h_nil from = false -> h_height from < two64 -> to < two64 -> 1 <= per ->
   GetRangeByHeight drift tv maxcap per from to peers evs = Some (ROk res) ->
-  linked (verified_during drift tv evs) from from res.
+  chain (verified_during drift tv evs) from res.
 Proof. exact result_verified. Qed.
 
-(** a run whose result is not one Verify chain: two peers, the second answers its
-    sub-request with an internally linked fork that passes non-adjacent verification
-    against [from]; header 14' is returned after header 13 although it fails Verify against it *)
-Theorem C05_result_verified_refuted :
-  exists drift tv maxcap per (from : hdr) (to : N) peers evs res pre a b post,
-    h_nil from = false /\ h_height from + 1 < two64 /\ to < two64 /\ 1 <= per /\
-    GetRangeByHeight drift tv maxcap per from to peers evs = Some (ROk res) /\
-    res = pre ++ a :: b :: post /\
-    forall now, Verify now drift tv a b <> None.
-Proof. exact result_verified_refuted. Qed.
-
-(** the remaining uint64 value of from.Height(): nothing is ever returned *)
-Theorem C05_from_at_max_height_returns_nothing :
-  forall drift tv maxcap per (from : hdr) (to : N) peers evs res,
-  h_nil from = false -> h_height from + 1 = two64 -> to < two64 -> 1 <= per ->
-  GetRangeByHeight drift tv maxcap per from to peers evs <> Some (ROk res).
-Proof. exact max_height_never_ok. Qed.
-
-(** Degenerate requests return ErrRangeMixUp at once (before any event: no hang, no panic).
-    Full statement: [forall from to, h_height from < two64 -> to <= h_height from + 1 -> ...];
-    it fails for h_height from = 2^64-1 (from.Height()+1 wraps), see the refutation below. *)
-Theorem C05_degenerate_is_error_partial :
+(** Degenerate requests - every (from, to) with to <= from.Height()+1, including
+    from.Height() = 2^64-1 for which every [to] is degenerate - return ErrRangeMixUp at once
+    (whatever the events: before any of them; no hang, no panic). *)
+Theorem C05_degenerate_is_error :
   forall drift tv maxcap per (from : hdr) (to : N) peers evs,
-  h_height from + 1 < two64 -> to <= h_height from + 1 ->
+  h_height from < two64 -> to <= h_height from + 1 ->
   GetRangeByHeight drift tv maxcap per from to peers evs = Some (RErr ERangeMixUp).
 Proof. exact degenerate_is_error. Qed.
 
-(** known finding 1: a degenerate request that waits for the caller's context *)
-Theorem C05_degenerate_refuted :
-  exists (from : hdr) (to : N),
-    h_nil from = false /\ h_height from < two64 /\ to < two64 /\ to <= h_height from + 1 /\
-    forall drift tv maxcap per peers evs,
-      1 <= per -> to <= maxcap -> ~ In ECtxDone evs -> ~ In EStop evs ->
-      GetRangeByHeight drift tv maxcap per from to peers evs = None.
-Proof.
-  exists (Hdr false 1 (two64 - 1) 0%Z 1 0 true), 5.
-  split; [reflexivity|]. split; [vm_compute; reflexivity|]. split; [reflexivity|]. split; [vm_compute; discriminate|].
-  intros. apply max_height_hangs; try assumption; try (vm_compute; reflexivity); vm_compute; discriminate.
-Qed.
-
 (** No peer answer can crash the client: once the call has started, no sequence of
     answers leads to a panic (the recovered decode panic, the unguarded h[0], the
-    prepareRequests(...)[0] of the re-request are all covered). *)
+    prepareRequests(...)[0] of the re-request, chunks[i][0] and prev[len(prev)-1] of the
+    boundary check are all covered). The premise says the caller's own range fits in a
+    slice ([maxcap] = largest capacity [make] accepts); see [C05_range_beyond_slice_limit]. *)
 Theorem C05_no_response_can_crash :
   forall drift tv maxcap per (from : hdr) (to : N) peers evs,
   h_nil from = false -> h_height from < two64 -> to < two64 -> 1 <= per ->
-  to - wrap64 (h_height from + 1) <= maxcap ->
+  to - (h_height from + 1) <= maxcap ->
   GetRangeByHeight drift tv maxcap per from to peers evs <> Some RPanic /\
   GetRangeByHeight drift tv maxcap per from to peers evs <> Some RFuel.
 Proof. exact no_response_crashes. Qed.
 
-(** known finding 2: the caller's own [to] can: a range longer than the largest slice
-    capacity panics in prepareRequests / make([]H, 0, amount) *)
-Theorem C05_total_refuted :
-  exists (from : hdr) (to : N),
-    h_nil from = false /\ h_height from + 1 < to /\ to < two64 /\
-    forall drift tv per peers evs, 1 <= per ->
-      GetRangeByHeight drift tv (2 ^ 45) per from to peers evs = Some RPanic.
-Proof.
-  exists (ex_hdr 7), (two64 - 1).
-  split; [reflexivity|]. split; [vm_compute; reflexivity|]. split; [vm_compute; reflexivity|].
-  intros. apply huge_range_panics; try assumption; vm_compute; reflexivity.
-Qed.
+(** documented limit of the premise above (outside the property: the caller asks for a
+    range longer than any slice; prepareRequests / make([]H, 0, amount) panic) *)
+Theorem C05_range_beyond_slice_limit :
+  forall drift tv maxcap per (from : hdr) (to : N) peers evs,
+  h_height from + 1 < two64 -> to < two64 -> 1 <= per ->
+  h_height from + 1 < to -> maxcap < to - (h_height from + 1) ->
+  GetRangeByHeight drift tv maxcap per from to peers evs = Some RPanic.
+Proof. exact huge_range_panics. Qed.
 
-(** the only errors are: mixed-up range (at once), context ended, exchange stopped *)
+(** the only errors are: mixed-up range (at once, only for degenerate requests), context
+    ended, exchange stopped, and the broken chain reported by the boundary check *)
 Theorem C05_errors_have_a_cause :
   forall drift tv maxcap per (from : hdr) (to : N) peers evs e,
   h_height from < two64 -> to < two64 -> 1 <= per ->
   GetRangeByHeight drift tv maxcap per from to peers evs = Some (RErr e) ->
-  (e = ERangeMixUp /\ to <= wrap64 (h_height from + 1)) \/
-  (e = ECtx /\ In ECtxDone evs) \/ (e = EClosed /\ In EStop evs).
+  (e = ERangeMixUp /\ to <= h_height from + 1) \/
+  (e = ECtx /\ In ECtxDone evs) \/ (e = EClosed /\ In EStop evs) \/
+  (e = ENotChain /\ exists p now fs, In (ERespond p now fs) evs).
 Proof. exact errors_have_a_cause. Qed.
 
 (** non-vacuity: two chunks answered out of order by two peers *)
@@ -134,26 +100,26 @@ Example C05_shifted_partial_overlong :
   = Some (ROk [ex_hdr 11; ex_hdr 12; ex_hdr 13; ex_hdr 14; ex_hdr 15]).
 Proof. vm_compute. reflexivity. Qed.
 
-(** What the code does NOT guarantee: the first header of a chunk is verified against
-    [from] only. A peer answering the second sub-request with an internally linked fork
-    that passes non-adjacent verification against [from] gets it returned next to the
-    true first chunk, although header 14' does not link to header 13. *)
-Example C05_chunk_boundary_is_not_linked :
+(** the chunk boundary is checked: a second sub-request answered with an internally linked
+    fork that passes non-adjacent verification against [from], but does not link to the
+    first chunk, makes the call fail (before 30b80c8 it was returned) *)
+Example C05_unlinked_chunk_is_refused :
   GetRangeByHeight 0%Z ex_tv 100 3 (ex_hdr 10) 16 [0; 1]
     [EDispatch 0 (Req 11 3); EDispatch 1 (Req 14 2);
      ERespond 0 5%Z [FHdr (ex_hdr 11); FHdr (ex_hdr 12); FHdr (ex_hdr 13)];
      ERespond 1 5%Z [FHdr (ex_fork 14); FHdr (ex_fork 15)]]
-  = Some (ROk [ex_hdr 11; ex_hdr 12; ex_hdr 13; ex_fork 14; ex_fork 15]) /\
-  Verify 5%Z 0%Z ex_tv (ex_hdr 13) (ex_fork 14) <> None /\
+  = Some (RErr ENotChain) /\
   Verify 5%Z 0%Z ex_tv (ex_hdr 10) (ex_fork 14) = None.
-Proof. split; [vm_compute; reflexivity|]. split; vm_compute; [discriminate | reflexivity]. Qed.
+Proof. split; vm_compute; reflexivity. Qed.
+
+(** from at the largest height: an error at once, also for to > 0 *)
+Example C05_from_at_max_height :
+  GetRangeByHeight 0%Z ex_tv 100 3 (Hdr false 1 (two64 - 1) 0%Z 1 0 true) 5 [0; 1] [] = Some (RErr ERangeMixUp).
+Proof. vm_compute. reflexivity. Qed.
 
 Print Assumptions C05_result_shape.
-Print Assumptions C05_result_verified_partial.
-Print Assumptions C05_result_verified_refuted.
-Print Assumptions C05_from_at_max_height_returns_nothing.
-Print Assumptions C05_degenerate_is_error_partial.
-Print Assumptions C05_degenerate_refuted.
+Print Assumptions C05_result_verified.
+Print Assumptions C05_degenerate_is_error.
 Print Assumptions C05_no_response_can_crash.
-Print Assumptions C05_total_refuted.
+Print Assumptions C05_range_beyond_slice_limit.
 Print Assumptions C05_errors_have_a_cause.
